@@ -501,5 +501,8 @@ def run(ctx):
   # every selected operator is calibrated on every sample: the operator loop asks the recipe once per operator, with that operator's own scope (C10.R2)
   r11_calibration_numeric(ctx)
   c10.r9_signature_subgraph_table(ctx, 'C09.R12')
+  # resumable over signatures: the first pass initialises the constants of every operator that will be quantized, also
+  # those of another signature's subgraph, so that a run continued from the returned result has them (round 19)
+  c10.r7_selection_simulation(ctx, 'C09.R13')
   from sa.rules import c10, c19  # pylint: disable=g-import-not-at-top
   c19._relabel(ctx, 'C10.R2', 'C09.R10', 'every operator of every sample is looked up in the recipe with its own scope - no per-type or per-round shortcut (C10.R2)', c10.r2_one_protocol)
